@@ -120,4 +120,130 @@ theorem gen_writerArrCmp (vs : VStore) (fixed : Nat) (a b : Bytes) :
   cases lexCmp (a.take fixed) (b.take fixed) <;> simp [Ordering.then] <;>
     cases compare (vs.idOf (a.drop fixed)) (vs.idOf (b.drop fixed)) <;> simp [Ordering.then]
 
+/-! ### the layout header: one property -/
+
+/-- the source-side value (`enum Property` of `creator/directory_pack/layout/property.rs`, mirrored by the
+    generated `SrcProperty`) the creator builds for a property of the model's layout -/
+def RawProp.toSrc (p : RawProp) : Option Generated.SrcProperty :=
+  match p.kind with
+  | .padding => some (.padding p.size)
+  | .variantId => some (.variantId p.name)
+  | .uint sz dflt => some (.unsignedInt sz dflt p.name)
+  | .sint sz dflt => some (.signedInt sz dflt p.name)
+  | .content ps cs dflt => some (.contentAddress cs ps dflt p.name)
+  | .array lenSize fixedLen dep _ => some (.array lenSize fixedLen dep p.name)
+  | .deportedInt _ _ _ _ => none
+
+/-- what the format can hold in a property header: byte sizes are `ByteSize` values (1..8), a padding
+    covers 1..16 bytes, content ids take at most 4 bytes, pack ids 1 or 2, an inline prefix at most 31 -/
+def RawProp.HeaderWF (p : RawProp) : Prop :=
+  match p.kind with
+  | .padding => 1 ≤ p.size ∧ p.size ≤ 256
+  | .variantId => True
+  | .uint sz _ => 1 ≤ sz ∧ sz ≤ 8
+  | .sint sz _ => 1 ≤ sz ∧ sz ≤ 8
+  | .content ps cs _ => 1 ≤ cs ∧ cs ≤ 4 ∧ (ps = 1 ∨ ps = 2)
+  | .array lenSize fixedLen dep _ =>
+    (∀ s, lenSize = some s → s ≤ 8) ∧ (∀ s i, dep = some (s, i) → s ≤ 7) ∧ fixedLen ≤ 31
+  | .deportedInt _ _ _ _ => True
+
+theorem leBytes_one (v : Nat) : leBytes v 1 = [UInt8.ofNat v] := by simp [leBytes, ofNat_mod_u8]
+
+theorem writes_pstring (nm : Bytes) :
+    writesBytes [(nm.length, 1), (leNat nm, nm.length)] = pstringEncode nm := by
+  simp [writesBytes, leBytes_one, leBytes_leNat, pstringEncode]
+
+/-- **The property header the model writes is the byte image of the writes of `Property::serialize`
+    translated on every run** (key-type byte with its size / default / two-byte-pack-id bits, default
+    values, key size and inline length of arrays, value-store index, name as p-string), for every
+    property kind the creator writes, within the ranges the format can hold. -/
+theorem gen_propertyHeader (p : RawProp) (src : Generated.SrcProperty) (hs : p.toSrc = some src) (hw : p.HeaderWF) :
+    p.encode = writesBytes (Generated.propertyWrites src) := by
+  obtain ⟨size, name, kind⟩ := p
+  cases kind with
+  | padding =>
+    simp only [RawProp.toSrc, Option.some.injEq] at hs; subst hs
+    simp only [RawProp.HeaderWF] at hw
+    simp [RawProp.encode, Generated.propertyWrites, writesBytes, leBytes_one]
+  | variantId =>
+    simp only [RawProp.toSrc, Option.some.injEq] at hs; subst hs
+    simp only [RawProp.encode, Generated.propertyWrites, List.nil_append]
+    rw [show ([(128 % 256, 1)] ++ [(name.length, 1), (leNat name, name.length)] : List (Nat × Nat)) =
+      [(128 % 256, 1)] ++ [(name.length, 1), (leNat name, name.length)] from rfl, writesBytes_append, writes_pstring]
+    simp [writesBytes, leBytes_one]
+  | uint sz dflt =>
+    simp only [RawProp.toSrc, Option.some.injEq] at hs; subst hs
+    simp only [RawProp.HeaderWF] at hw
+    have hm : sz % 256 = sz := Nat.mod_eq_of_lt (by omega)
+    cases dflt with
+    | none =>
+      simp only [RawProp.encode, Generated.propertyWrites, List.nil_append, hm]
+      rw [writesBytes_append, writes_pstring]
+      simp [writesBytes, leBytes_one]
+    | some dv =>
+      simp only [RawProp.encode, Generated.propertyWrites, List.nil_append, hm]
+      rw [writesBytes_append, writes_pstring, writesBytes_append]
+      simp [writesBytes, leBytes_one]
+  | sint sz dflt =>
+    simp only [RawProp.toSrc, Option.some.injEq] at hs; subst hs
+    simp only [RawProp.HeaderWF] at hw
+    have hm : sz % 256 = sz := Nat.mod_eq_of_lt (by omega)
+    cases dflt with
+    | none =>
+      simp only [RawProp.encode, Generated.propertyWrites, List.nil_append, hm]
+      rw [writesBytes_append, writes_pstring]
+      simp [writesBytes, leBytes_one]
+    | some dv =>
+      simp only [RawProp.encode, Generated.propertyWrites, List.nil_append, hm]
+      rw [writesBytes_append, writes_pstring, writesBytes_append]
+      simp [writesBytes, leBytes_one, leBytesInt]
+  | content ps cs dflt =>
+    simp only [RawProp.toSrc, Option.some.injEq] at hs; subst hs
+    simp only [RawProp.HeaderWF] at hw
+    obtain ⟨h1, h2, h3⟩ := hw
+    have hm : cs % 256 = cs := Nat.mod_eq_of_lt (by omega)
+    have hor : (16 % 256 + (cs - 1)) ||| 4 = 16 + (cs - 1) + 4 := by
+      have : cs = 1 ∨ cs = 2 ∨ cs = 3 ∨ cs = 4 := by omega
+      rcases this with rfl | rfl | rfl | rfl <;> decide
+    rcases h3 with rfl | rfl <;> cases dflt with
+    | none =>
+      simp only [RawProp.encode, Generated.propertyWrites, List.nil_append, hm, hor]
+      rw [writesBytes_append, writes_pstring]
+      simp [writesBytes, leBytes_one]
+    | some dv =>
+      simp only [RawProp.encode, Generated.propertyWrites, List.nil_append, hm, hor]
+      rw [writesBytes_append, writes_pstring, writesBytes_append]
+      simp [writesBytes, leBytes_one]
+  | array lenSize fixedLen dep dflt =>
+    simp only [RawProp.toSrc, Option.some.injEq] at hs; subst hs
+    simp only [RawProp.HeaderWF] at hw
+    obtain ⟨h1, h2, h3⟩ := hw
+    cases lenSize with
+    | none =>
+      cases dep with
+      | none =>
+        simp only [RawProp.encode, Generated.propertyWrites, List.nil_append]
+        rw [writesBytes_append, writes_pstring]
+        simp [writesBytes, leBytes_one]
+      | some si =>
+        obtain ⟨s, i⟩ := si
+        have hs7 : s % 256 = s := Nat.mod_eq_of_lt (by have := h2 s i rfl; omega)
+        simp only [RawProp.encode, Generated.propertyWrites, List.nil_append, hs7]
+        rw [writesBytes_append, writes_pstring, writesBytes_append]
+        simp [writesBytes, leBytes_one, Nat.shiftLeft_eq]
+    | some ls =>
+      have hl : ls % 256 = ls := Nat.mod_eq_of_lt (by have := h1 ls rfl; omega)
+      cases dep with
+      | none =>
+        simp only [RawProp.encode, Generated.propertyWrites, List.nil_append, hl]
+        rw [writesBytes_append, writes_pstring]
+        simp [writesBytes, leBytes_one]
+      | some si =>
+        obtain ⟨s, i⟩ := si
+        have hs7 : s % 256 = s := Nat.mod_eq_of_lt (by have := h2 s i rfl; omega)
+        simp only [RawProp.encode, Generated.propertyWrites, List.nil_append, hl, hs7]
+        rw [writesBytes_append, writes_pstring, writesBytes_append]
+        simp [writesBytes, leBytes_one, Nat.shiftLeft_eq]
+  | deportedInt a b c e => simp [RawProp.toSrc] at hs
+
 end Jubako
